@@ -93,6 +93,7 @@ where
     Fut: Future<Output = T>,
 {
     PANICS.with(|p| p.borrow_mut().clear());
+    crate::net::PACKET_BUDGET_HIT.with(|h| h.set(false));
     install_select(policy);
     let rt = tokio::runtime::Builder::new_current_thread()
         .enable_time()
@@ -109,7 +110,10 @@ where
         let from = s.mark.unwrap_or(0) as usize;
         (s.calls[from.min(s.calls.len())..].to_vec(), s.calls.len())
     });
-    let panics = PANICS.with(|p| std::mem::take(&mut *p.borrow_mut()));
+    let mut panics = PANICS.with(|p| std::mem::take(&mut *p.borrow_mut()));
+    if crate::net::PACKET_BUDGET_HIT.with(|h| h.get()) {
+        panics.push(format!("livelock: the endpoints exchanged more than {} packets without reaching the scenario's virtual-time horizon", crate::net::PACKET_BUDGET));
+    }
     (out, ExecInfo { select_calls: calls, select_total: total, panics })
 }
 
